@@ -119,10 +119,11 @@ def cache_consistent(b):
     """do the (cached) derived properties of b agree with a body rebuilt from its current
     pose / vertices?  (express_in must invalidate every cache)"""
     fresh = hc.RigidBody(np.copy(b.body2origin_), np.copy(b.vertices_), b.tetrahedra_, b.potentials_)
-    return dict(points=bool(np.array_equal(b.tetrahedra_points, fresh.tetrahedra_points)),
+    root = bool(np.array_equal(b.aabb(), fresh.aabb()))     # the tree first: reading .aabbs must not be needed to refresh it
+    return dict(root_aabb=root,
+                points=bool(np.array_equal(b.tetrahedra_points, fresh.tetrahedra_points)),
                 com=bool(np.array_equal(b.com, fresh.com)),
-                aabbs=bool(np.array_equal(b.aabbs, fresh.aabbs)),
-                root_aabb=bool(np.array_equal(b.aabb(), fresh.aabb())))
+                aabbs=bool(np.array_equal(b.aabbs, fresh.aabbs)))
 
 
 def express(spec1, spec2, k=10):
@@ -168,6 +169,44 @@ def details(spec1, spec2, k=12):
     out["frame2world"] = L(cs.frame2world)
     out["local"] = [dict(plane=L(cs.contact_planes[i]), poly=L(cs.contact_polygons[i]), force=L(cs.contact_forces[i]),
                          com=L(cs.contact_coms[i]), area=float(cs.contact_areas[i])) for i in idx]
+    return out
+
+
+def snapshot(b):
+    """a cache-free copy of the CURRENT state of b (pose of the frame its vertices are expressed in, vertices)"""
+    nb = hc.RigidBody(np.copy(b.body2origin_), np.copy(b.vertices_), b.tetrahedra_, b.potentials_)
+    nb.youngs_modulus = b.youngs_modulus
+    return nb
+
+
+def one_call(bi, bj, mode):
+    if mode == "cf":
+        inter, w12, w21 = hc.contact_forces(bi, bj)
+        return dict(inter=bool(inter), w12=L(w12), w21=L(w21), pairs=None)
+    cs = hc.find_contact_surface(bi, bj, use_aabb_trees=(mode == "tree"))
+    w12, w21 = fo.accumulate_wrenches(cs, bi, bj)
+    return dict(inter=bool(cs.intersection), w12=L(w12), w21=L(w21),
+                pairs=sorted([int(a), int(b)] for a, b in zip(cs.intersecting_tetrahedra1, cs.intersecting_tetrahedra2)))
+
+
+def history(specs, steps):
+    """a call history on the SAME RigidBody objects (roles change, frames change, poses are updated in place,
+    cached properties are read in between).  Before every call both bodies are snapshotted (cache-free copies
+    of their current state); the call on the live objects must return what the call on the snapshots returns."""
+    B = [make_body(sp) for sp in specs]
+    out = []
+    for st in steps:
+        for k in st.get("read", []):
+            _ = B[k].com, B[k].aabb(), B[k].tetrahedra_points          # fills caches (aabb() builds the tree)
+        if st.get("move") is not None:
+            k, M, side = st["move"]
+            # in place, as the simulation examples do
+            B[k].body2origin_[:] = np.dot(A(M), B[k].body2origin_) if side == "left" else np.dot(B[k].body2origin_, A(M))
+        i, j = st["pair"]
+        si, sj = snapshot(B[i]), snapshot(B[j])
+        exp = one_call(si, sj, st["mode"])
+        got = one_call(B[i], B[j], st["mode"])
+        out.append(dict(exp=exp, got=got, caches_i=cache_consistent(B[i]), caches_j=cache_consistent(B[j])))
     return out
 
 
@@ -236,6 +275,8 @@ def run_case(c):
             out["caches_after_back"] = cache_consistent(b1)
             out["b3_fresh"] = cf(make_body(s1), make_body(c["b3"]))
         out["express"] = express(s1, s2)
+        if c.get("history") is not None:
+            out["history"] = history(c["history"]["specs"], c["history"]["steps"])
         if c.get("details", True):
             out["details"] = details(s1, s2, int(c.get("details_k", 12)))
         # internals on fresh bodies (must reproduce base bit for bit)
